@@ -173,8 +173,9 @@ def h_kn(cx):
         from autograd import grad
         n = cx.integer('n', 0, 6)
         x = abs(cx.real('x')) + 0.05
-        d = grad(lambda y: S.kn(n, y))(x)
-        cx.prove_eq(d, -0.5 * (scipy.special.kn(abs(n - 1), x) + scipy.special.kn(n + 1, x)), 'kn-derivative')
+        g = cx.real('g') + 1.5           # cotangent != 1: kn inside a larger expression
+        d = grad(lambda y: g * S.kn(n, y))(x)
+        cx.prove_eq(d, -0.5 * g * (scipy.special.kn(abs(n - 1), x) + scipy.special.kn(n + 1, x)), 'kn-derivative')
         try:
             S.kn(cx.real('nu') + 0.5 if float(cx.real('nu')).is_integer() else cx.real('nu'), x)
         except TypeError:
@@ -182,24 +183,41 @@ def h_kn(cx):
         else:
             cx.fail('non-integer-order-accepted')
         return
-    tree = ast.parse(inspect.getsource(S))
-    call = next(n for n in ast.walk(tree) if isinstance(n, ast.Call) and getattr(n.func, 'id', '') == 'defvjp')
-    cx.expect(getattr(call.args[0], 'id', None) == 'kn' and isinstance(call.args[1], ast.Constant) and call.args[1].value is None,
-              'defvjp(kn, None, ...): no derivative w.r.t. the order')
-    lam = call.args[2]
+    # the module source is executed once more in a private namespace with autograd's `defvjp` replaced by a recorder: whatever is registered
+    # for kn (a lambda, a helper, a table) is the object that gets evaluated, with the module globals `kn` / `np` replaced by an
+    # uninterpreted K and z3-aware numpy pieces afterwards (globals are looked up at call time)
+    import autograd.extend as AE
+    calls = []
+    real_defvjp = AE.defvjp
+    ns = {'__name__': 'pyerrors_special_under_analysis'}
+    AE.defvjp = lambda fun, *vjps, **kw: calls.append((fun, vjps, kw))
+    try:
+        exec(compile(inspect.getsource(S), S.__file__, 'exec'), ns)
+    finally:
+        AE.defvjp = real_defvjp
+    reg = [c for c in calls if c[0] is ns.get('kn')]
+    if not cx.expect(len(reg) == 1 and len(reg[0][1]) == 2 and not reg[0][2], 'one defvjp(kn, <order>, <argument>) registration', str(calls)[:200]):
+        return
+    cx.expect(reg[0][1][0] is None, 'defvjp(kn, None, ...): no derivative w.r.t. the order')
     K = z3.Function('K', z3.IntSort(), z3.RealSort(), z3.RealSort())
 
     class NPx:
         @staticmethod
         def abs(x):
             return z3.If(x >= 0, x, -x)
-    vjp = eval(compile(ast.Expression(lam), '<vjp>', 'eval'), {'kn': lambda n, x: K(n, x), 'np': NPx})
+    ns['kn'] = lambda n, x: K(n, x)
+    ns['np'] = NPx
     n = cx.integer('n').t
     x, g, ans = z3.Reals('x g ans')
-    res = vjp(ans, n, x)(g)
+    res = reg[0][1][1](ans, n, x)(g)
     m = z3.Int('m')
-    cx.fact(z3.ForAll([m, x], K(-m, x) == K(m, x)))
-    cx.prove(res == -g * (K(n - 1, x) + K(n + 1, x)) / 2, 'vjp = -g (K_{n-1}+K_{n+1})/2 for every integer n')
+    y = z3.Real('y')
+    cx.fact(z3.ForAll([m, y], K(-m, y) == K(m, y)))
+    # what the vjp may rely on: `ans` is the value of the primitive, and the three-term recurrence of K (DLMF 10.29.1)
+    cx.assume(core.SB(ans == K(n, x)), 'ans = K_n(x)')
+    cx.assume(core.SB(x != 0), 'x != 0')
+    cx.fact(K(n + 1, x) * x == K(n - 1, x) * x + 2 * z3.ToReal(n) * K(n, x))
+    cx.prove(res == -g * (K(n - 1, x) + K(n + 1, x)) / 2, 'vjp = -g (K_{n-1}+K_{n+1})/2 for every integer n and every cotangent g')
     # order check of the primitive itself
     f = ast2smt.fdef(S, 'kn')
     nu = z3.Real('nu')
